@@ -1000,17 +1000,25 @@ mod api {
                 let mut s = Sess::new(cfgv.clone());
                 let a = texts(&s.typ("ami").unwrap()); s.finish();
                 for t in [":e", "zzqe", "ae", "e", "hello", "hellogulo"] { let _ = s.typ(t); s.finish(); }
-                let sg = s.typ("sesh").unwrap(); if !sg.is_lonely() && sg.len() > 1 { s.commit(1); } else { s.finish(); }
+                let sg = s.typ("sesh").unwrap();
+                let learned = if !sg.is_lonely() && sg.len() > 1 { let t = sg.get_suggestions()[1].clone(); s.commit(1); Some(t) } else { s.finish(); None };
                 let cfg = make_config(&cfgv);
                 s.ctx.update_engine(&cfg);
                 let _ = s.typ("kotha"); s.finish();
-                a
+                drop(s);
+                // "treated as if the file were absent" also when it comes to saving: the choice committed above is in the store now,
+                // so a context created afterwards preselects it
+                let recalled = learned.as_ref().map(|_| { let mut f = Sess::new(cfgv.clone()); let b = f.typ("sesh").unwrap(); f.finish(); b.get_suggestions().get(b.previously_selected_index()).cloned() });
+                (a, learned, recalled)
             }));
             match r {
                 Err(_) => o.fail(json!({"clause": "C01 C10 damaged user file never stops the keyboard (panic)", "history": hist})),
-                Ok(a) => {
+                Ok((a, learned, recalled)) => {
                     let readable = serde_json::from_slice::<std::collections::HashMap<String, String>>(&content).is_ok();
                     if !readable && a != reference { o.fail(json!({"clause": "C10 unreadable content is treated as if the file were absent", "history": hist, "observed": a, "expected": reference})); }
+                    if let (Some(l), Some(rc)) = (&learned, &recalled) { if rc.as_ref() != Some(l) {
+                        o.fail(json!({"clause": "C09 C10 a damaged user file is treated as absent for saving too: a choice committed while it is there is recalled by a context created afterwards", "history": hist, "observed": rc, "expected": l}));
+                    } }
                     o.nontrivial += 1;
                 }
             }
@@ -1349,18 +1357,37 @@ mod api {
             let opts = ["phonetic_suggestion", "include_english", "fixed_suggestion", "fixed_vowel", "fixed_chandra", "fixed_kar", "fixed_old_reph", "fixed_numpad", "fixed_kar_order", "ansi", "smart_quote"];
             let bases: Vec<(&str, Value, Vec<&str>)> = vec![
                 ("phonetic", full("avro_phonetic".into()), vec!["amar", "cool", "\"kotha\"", "academy", ";)", "a", "o"]),
-                ("probhat", full(crate::verif_driver::probhat_layout()), vec!["bab", "tp", "hasi", "\"tp\"", "kuk", ";)", "[k", "k[a", "ru"]),
+                ("probhat", full(crate::verif_driver::probhat_layout()), vec!["bab", "tp", "hasi", "\"tp\"", "kuk", ";)", "[k", "k[a", "ru", "k>a", "ab", "ek", "ik"]),
+                // the synthetic layout has a reph key (q), hasanta (w), left-standing signs (d e f), chandrabindu (o), ZWJ (`): one probe
+                // at least is sensitive to each composition helper -- from a base with the helpers off and from one with all of them on
+                ("synthetic", full(crate::verif_driver::synthetic_layout()), vec!["tq", "tpq", "twtq", "ftq", "dt", "et", "dtp", "top", "toe", "p", "ept", "uc", "tuc", "\"tp\"", ";)"]),
+                ("synthetic, helpers on", { let mut c = full(crate::verif_driver::synthetic_layout()); for k in ["fixed_vowel", "fixed_chandra", "fixed_kar", "fixed_old_reph", "fixed_numpad", "fixed_kar_order"] { c[k] = json!(true); } c },
+                    vec!["tq", "tpq", "twtq", "ftq", "dt", "et", "dtp", "top", "toe", "p", "ept", "uc", "tuc", "\"tp\"", ";)"]),
             ];
+            let pad_codes: Vec<u16> = { let kt: Value = serde_json::from_str(&std::fs::read_to_string(crate::verif_driver::gen_file("keytable.json")).unwrap_or("[]".into())).unwrap_or(json!([]));
+                kt.as_array().cloned().unwrap_or_default().iter().filter(|r| r["kind"] == "pad").map(|r| r["code"].as_u64().unwrap() as u16).collect() };
             for (bn, base, probes) in &bases { for opt in opts { for first in [false, true] {
                 o.cases += 1;
-                let tag = match opt { "ansi" => "C05 C11 C16 C18", "smart_quote" => "C05 C11 C17", "include_english" => "C05 C11 C16 C15", "fixed_kar_order" => "C05 C11 C14", "fixed_kar" | "fixed_vowel" | "fixed_chandra" => "C05 C11 C12", "fixed_old_reph" => "C05 C11 C13", "fixed_numpad" => "C05 C11 C04", _ => "C05 C11" };
+                let tag = match opt { "ansi" => "C05 C11 C16 C18", "smart_quote" => "C05 C11 C17", "include_english" => "C05 C11 C16 C15", "fixed_kar_order" => "C05 C11 C14 C04", "fixed_kar" | "fixed_vowel" | "fixed_chandra" => "C05 C11 C12 C04", "fixed_old_reph" => "C05 C11 C13 C04", "fixed_numpad" => "C05 C11 C04", _ => "C05 C11" };
                 let mut a = base.clone(); a[opt] = json!(first);
                 let mut b = base.clone(); b[opt] = json!(!first);
                 crate::verif_driver::reset_user_files();
                 let mut s = Sess::new(a.clone());
                 for w in probes { let _ = s.typ(w); s.finish(); }
+                // every key-pad key pressed once before the switch as well
+                if *bn != "phonetic" { for c in pad_codes.iter() { let _ = s.code_mod(*c, 0, 0); s.finish(); } }
                 s.update(&b);
                 let mut fresh = Sess::new(b.clone());
+                if *bn != "phonetic" {
+                    for c in pad_codes.iter() {
+                        let x = s.code_mod(*c, 0, 0); s.finish();
+                        let y = fresh.code_mod(*c, 0, 0); fresh.finish();
+                        if show(&x) != show(&y) {
+                            o.fail(json!({"clause": format!("{} an option changed by update_engine on an idle context takes effect at once, also for key-pad keys pressed before the change", tag), "method": bn, "option": opt, "from": first, "key": c, "history": s.history(), "observed": show(&x), "expected": show(&y)}));
+                            break;
+                        }
+                    }
+                }
                 // in reverse: the first text typed after the switch is the last one typed before it
                 for w in probes.iter().rev() {
                     let r = std::panic::catch_unwind(std::panic::AssertUnwindSafe(|| { let x = s.typ(w).unwrap(); s.finish(); x }));
@@ -1374,6 +1401,38 @@ mod api {
                 }
                 o.nontrivial += 1;
             }}}
+        }
+        // a configuration that names ANOTHER data directory (not covered by C11, which fixes the data directory): whatever the engine
+        // does with it, two contexts with the same configuration history must agree -- one that composed the probe words before the
+        // switch (warm memo) and one that composed nothing (C05: a function of text, configuration, data files and selections only;
+        // C08: candidates justified by the dictionary in use)
+        {
+            let dir = format!("{}/verif-other-data", crate::verif_driver::user_dir());
+            let _ = std::fs::remove_dir_all(&dir);
+            std::fs::create_dir_all(&dir).unwrap();
+            std::fs::write(format!("{}/dictionary.json", dir), "{}").unwrap();
+            for f in ["suffix.json", "autocorrect.json"] { std::fs::copy(format!("{}/{}", crate::verif_driver::data_dir(), f), format!("{}/{}", dir, f)).unwrap(); }
+            let real = phon_cfg(json!({}));
+            let mut other = real.clone(); other["database_dir"] = json!(dir);
+            for (a, b, what) in [(&real, &other, "bundled data -> directory with an empty dictionary"), (&other, &real, "directory with an empty dictionary -> bundled data")] {
+                o.cases += 1;
+                crate::verif_driver::reset_user_files();
+                let mut warm = Sess::new(a.clone());
+                for w in ["kotha", "as", "kothagulo", "amar"] { let _ = warm.typ(w); warm.finish(); }
+                warm.update(b);
+                let mut cold = Sess::new(a.clone());
+                cold.update(b);
+                for w in ["kotha", "kothagulo", "as", "asgulo", "amar", "kor"] {
+                    let x = warm.typ(w).unwrap(); warm.finish();
+                    let y = cold.typ(w).unwrap(); cold.finish();
+                    if show(&x) != show(&y) {
+                        o.fail(json!({"clause": "C05 C08 after update_engine with a configuration that names another data directory, a context that composed the words before and one that composed nothing give the same suggestions", "switch": what, "probe": w, "history": warm.history(), "observed": show(&x), "expected": show(&y)}));
+                        break;
+                    }
+                }
+                o.nontrivial += 1;
+            }
+            let _ = std::fs::remove_dir_all(&dir);
         }
         // fixed -> fixed with another layout file, both directions: EVERY published key (plain and AltGr, key pad on) answers as in a
         // context newly created with the new layout -- nothing of the old layout survives (C04, C11)
@@ -1707,7 +1766,12 @@ mod api {
         for n in tables["names"].as_array().cloned().unwrap_or_default() {
             let n = n.as_str().unwrap().to_string();
             idx += 1;
-            if idx % step != 0 || (idx / step) % nshards != shard || !typeable(&n) || !n.chars().all(|c| c.is_ascii_alphanumeric()) { continue; }
+            // names of an unusual shape (anything but letters and digits) are never sampled away
+            let plain = n.chars().all(|c| c.is_ascii_alphanumeric());
+            if (plain && idx % step != 0) || (idx / step) % nshards != shard || !typeable(&n) { continue; }
+            // a table key is a word when the split leaves it whole (`t-rex`, `e-mail`: punctuation inside a word stays in the word part);
+            // keys the phonetic parser treats specially (backtick) or that are pure punctuation are skipped
+            { let cs: Vec<char> = n.chars().collect(); let (_, w, _) = split::split_exec(&cs, false); if w != n || n.contains('`') { continue; } }
             if tables["emoticon_map"].get(&n).is_some() { continue; }
             let emojis: Vec<String> = match tables["names_map"][&n].as_array() { Some(a) => a.iter().map(|x| x.as_str().unwrap().to_string()).collect(), None => continue };
             for wrapped in [false, true] {
